@@ -105,7 +105,7 @@ pub fn run(ctx: &Ctx) -> Report {
         let mut rng = Rng::new(derive(ctx.seed, &prop, w as u64, 0));
         let n = ctx.scale(if sweep { 400 } else { 1600 }, 16 * if sweep { 12000 } else { 40000 }) / ctx.workers as u64;
         for i in 0..n.max(1) {
-            if ctx.expired() {
+            if ctx.expired_at(70) {
                 rep.bump("e1/stopped_by_deadline");
                 break;
             }
@@ -115,7 +115,7 @@ pub fn run(ctx: &Ctx) -> Report {
                 profile.max_depth = 6;
                 profile.max_nodes = 40;
             }
-            let opts = HistoryOpts { profile: profile.clone(), len: rng.range(10, if sweep { 14 } else { 40 }) as usize, sweep, matrix: (i == 0 && w < 2) || (prop == "C12" && i % 8 == 0), api: match i % 5 { 3 => ApiKind::Bech32, 4 => ApiKind::Bech32m, _ => ApiKind::Std }, prestored: i % 4 == 1, one_address_per_code: i % 12 == 7 };
+            let opts = HistoryOpts { profile: profile.clone(), len: rng.range(10, if sweep { 14 } else { 40 }) as usize, sweep, matrix: (i == 0 && w < 2) || (prop == "C12" && i % 8 == 0), api: match i % 5 { 3 => ApiKind::Bech32, 4 => ApiKind::Bech32m, 1 if i % 10 == 6 => ApiKind::Plain, _ => ApiKind::Std }, prestored: i % 4 == 1, one_address_per_code: i % 12 == 7 };
             let (case, discs) = run_history(&mut rng, &opts, &mut rep, &prop);
             rep.bump("e1/histories");
             if w == 0 && i == 1 {
@@ -140,7 +140,7 @@ pub fn run(ctx: &Ctx) -> Report {
             // staking queries against the committed raw state (discrepancies tagged C10 by the staking engine)
             let n = ctx.scale(240, 16 * 4000) / ctx.workers as u64;
             for _ in 0..n.max(1) {
-                if ctx.expired() {
+                if ctx.expired_at(85) {
                     break;
                 }
                 let len = rng.range(20, 50) as usize;
